@@ -877,14 +877,7 @@ class _Gen:
                 s.mods.append(cm)
                 cons.append({'mid': cm.mid, 'uid': uid, 'refs': refs, 'kind': kind, 'cu': cu, 'style': style})
         s.notes['consumers'] = cons
-        # the defining module also *imports* something under the name it then defines (a fallback replaced by the real definition):
-        # after the move the old location must lead to the moved object, not to what had been imported
-        for uid, (rmid, exported) in list(s.moved.items()):
-            dmid, qual, kind = s.defs[uid]
-            dm = next(x for x in s.mods if x.mid == dmid)
-            if '.' not in qual and not dm.is_pkg and r.random() < .3:
-                dm.items.insert(0, Item(kind='raw', text=r.choice([f'from typing import Any as {qual}', f'from collections import OrderedDict as {qual}'])))
-                s.notes['definer_imports_the_name'] = True
+        self.add_definer_imports(.3)
         # the defining module uses its re-exporter itself, below its definitions (a real import cycle: when the defining module is analysed
         # first, the re-exporter is analysed in the middle of it and moves objects out of a module that is still being processed)
         for uid, (rmid, exported) in list(s.moved.items()):
@@ -916,6 +909,17 @@ class _Gen:
             s.mods.append(pm)
             ins.append({'uid': uid, 'pmid': pm.mid, 'cls': cexp, 'fn': fname, 'cu': cu, 'written': qual})
         s.notes['insiders'] = ins
+
+    def add_definer_imports(self, p: float) -> None:
+        """the defining module also *imports* something under the name it then defines (a fallback replaced by the real definition):
+        after the move the old location must lead to the moved object, not to what had been imported"""
+        r, s = self.r, self.spec
+        for uid, (rmid, exported) in list(s.moved.items()):
+            dmid, qual, kind = s.defs[uid]
+            dm = next(x for x in s.mods if x.mid == dmid)
+            if '.' not in qual and not dm.is_pkg and r.random() < p:
+                dm.items.insert(0, Item(kind='raw', text=r.choice([f'from typing import Any as {qual}', f'from collections import OrderedDict as {qual}'])))
+                s.notes['definer_imports_the_name'] = True
 
     def add_privacy(self) -> None:
         r, s = self.r, self.spec
@@ -964,6 +968,8 @@ def generate(r: Any, f: Features) -> Spec:
         g.fill_package(p)
     if f.consumers:
         g.add_consumers()
+    elif f.reexports:
+        g.add_definer_imports(.15)
     if f.cycles:
         g.add_cycles()
     if f.privacy:
